@@ -203,6 +203,10 @@ def build(p):
         stored = [val_to_py(v) for v in p["x"]]
         if p["n"] == 1:
             return sub[0].partial_apply(*stored)
+        if p["n"] == 3:      # partial_apply on the first stored value, the others as keyword arguments of the result
+            n = _arity(p["subs"][0])
+            kw = {f"a{n - len(stored[1:]) + j}": v for j, v in enumerate(stored[1:])}      # the trailing parameters
+            return sub[0].partial_apply(stored[0])(**kw)
         if p["n"] == 2:      # stored values as the trailing keyword arguments a<i>
             n = _arity(p["subs"][0])
             kw = {f"a{n - len(stored) + j}": v for j, v in enumerate(stored)}
@@ -271,6 +275,12 @@ def proj_args(p, args):
         ns = len(p["x"])
         if p["n"] == 1:                      # partial_apply: the trace holds the extra arguments only
             return [proj_val(x) for x in args]
+        if p["n"] == 3:                      # partial_apply + kwargs: (positional extra args, {name: value}); the partial argument is hidden
+            pos, kw = args
+            vals = [proj_val(kw[k]) for k in sorted(kw)]
+            if vals != list(p["x"][1:]):
+                return [{"t": "n", "i": 7, "k": []}]
+            return [proj_val(x) for x in pos]
         if p["n"] == 2:                      # kwargs: the trace holds (positional args, {name: value})
             pos, kw = args
             vals = [proj_val(kw[k]) for k in sorted(kw)]
